@@ -233,6 +233,31 @@ func (k *Conn) Do(method string, raw []byte) *Resp {
 	return k.read(method)
 }
 
+// DoHalfClose writes raw request bytes, shuts down the sending half of the
+// connection (FIN: "I have nothing more to say", as `printf ... | nc` and
+// HTTP/1.0-style clients do) and then reads one response.
+func (k *Conn) DoHalfClose(method string, raw []byte) *Resp {
+	if k.c == nil {
+		c, err := net.DialTimeout("tcp", k.Addr, 10*time.Second)
+		if err != nil {
+			return &Resp{Err: err}
+		}
+		k.c = c
+		k.br = bufio.NewReaderSize(c, 64<<10)
+	}
+	k.c.SetDeadline(time.Now().Add(k.Timeout))
+	if _, err := k.c.Write(raw); err != nil {
+		k.Close()
+		return &Resp{Err: err}
+	}
+	if tc, ok := k.c.(*net.TCPConn); ok {
+		tc.CloseWrite()
+	}
+	r := k.read(method)
+	k.Close()
+	return r
+}
+
 func (k *Conn) read(method string) *Resp {
 	for {
 		resp, err := http.ReadResponse(k.br, &http.Request{Method: method})
